@@ -327,3 +327,60 @@ def law_vcs(repo, ci, laws=("L1", "L2", "L3", "L6", "L6v", "L4a", "L5", "L5d", "
             goal = z3.And(*[z3.Implies(pathcond(q), q.kind == v.kind) for q in K1])
             vcs.append(VC(f"{C}:L4t:validate#{i}~keys", tot + v.pc + v.defs, goal, {"law": "L4t", "cls": C}))
     return vcs, undecided
+
+
+# ---------------------------------------------------------------------------------------------------------------------
+# L10: inspection is body-free.  In validate/keys/explain the only `evaluate` calls on children are at selector positions and
+# user callables are applied only as selectors (bind functions, case conditions).  Decided on the ghost trace of every path.
+SELECTOR_FIELDS = {
+    "Switch": ("dispatch",), "Overloaded": ("dispatch",), "Bind": ("evaluatable",), "CaseWhen": ("dispatch", "cases"),
+    "Map": ("iterables",), "Option": ("domain",), "Computation": (), "Dataset": ("overloads",),
+}
+SELECTOR_CALLABLES = {"Bind": ("func",), "CaseWhen": ("cases", "dispatch")}
+# flag options are read by inspection methods (Computation.validate/explain read LABREA.EFFECTS.DISABLED): not bodies
+FLAG_PREFIX = "mk_Option"
+
+
+def _mentions(term, cls, fields):
+    s = str(term)
+    return any(f"fld!{cls}.{f}" in s for f in fields)
+
+
+def flat_events(trace):
+    for ev in trace:
+        if ev[0] in ("loop", "loop-prefix"):
+            for cond, sub in ev[3]:
+                yield from flat_events(sub)
+        else:
+            yield ev
+
+
+def l10_obligations(repo, ci, R):
+    out = []
+    C = ci.name
+    for meth in ("validate", "keys", "explain"):
+        ps = R.paths(meth, 1)
+        for i, p in enumerate(ps):
+            if p.kind == "unsupported":
+                continue
+            bad = []
+            for ev in flat_events(p.trace):
+                if ev[0] == "call" and ev[1] == "evaluate":
+                    t = ev[2]
+                    if t.eq(SELF):
+                        if not (C == "Option" and meth == "validate"):
+                            bad.append(f"evaluates itself in {meth}")
+                        continue
+                    if str(t).startswith(FLAG_PREFIX) and "LABREA." in str(t):
+                        continue
+                    if not _mentions(t, C, SELECTOR_FIELDS.get(C, ())):
+                        # Option.validate evaluates (present key): handled above; temporaries built from selector fields are fine
+                        bad.append(f"evaluate on non-selector child {str(t)[:80]}")
+                elif ev[0] == "apply":
+                    f = ev[1]
+                    if not _mentions(f, C, SELECTOR_CALLABLES.get(C, ())) and not (C == "Option" and "domain" in str(f)):
+                        bad.append(f"applies a user callable {str(f)[:80]}")
+                elif ev[0] == "call" and ev[1] == "transform":
+                    bad.append("runs an effect")
+            out.append({"name": f"{C}:L10:{meth}#{i}", "ok": not bad, "detail": "; ".join(bad), "group": f"{C}:L10"})
+    return out
